@@ -4,7 +4,7 @@
    [dec_frame] / [dec_stream] model the REPAIRED marbl.Reader
    (fixes/C19-1-reader-length-wrap.diff); [dec_frame_orig] the reader as found. *)
 From Coq Require Import List NArith Bool Ascii String Arith Permutation.
-From Martian.C19 Require Import Model Proofs_Codec Proofs_Stream Proofs_Ids.
+From Martian.C19 Require Import Model Proofs_Codec Proofs_Stream Proofs_Ids Proofs_Audit.
 Import ListNotations.
 Open Scope N_scope.
 
@@ -161,6 +161,102 @@ Theorem C19_passthrough_oracle_is_the_property : forall unders wrapped,
 Proof. exact c19_passthrough_ok_iff. Qed.
 Print Assumptions C19_passthrough_oracle_is_the_property.
 
+(* ---- audit round: what every verdict function of the driver means ---- *)
+
+(* The stream oracle is EXACTLY the existential over schedules: the decoded
+   frames are some interleaving (each list in its own order, whole frames —
+   the atomicity assumption: Stream.loop receives one whole frame per channel
+   operation and issues one Write per frame) of lists that are, message by
+   message, the pseudo-headers, a permutation of the headers and the data
+   frames.  Guard: distinct (wire id, type). *)
+Theorem C19_stream_oracle_iff_some_interleaving : forall ms fs,
+  NoDup (map mkey ms) ->
+  (c19_stream_ok ms fs = true <-> exists ls, Forall2 msg_spec ms ls /\ Merge ls fs).
+Proof.
+  intros ms fs Hnd. rewrite c19_stream_ok_iff. exact (stream_spec_iff_interleaving ms fs Hnd).
+Qed.
+Print Assumptions C19_stream_oracle_iff_some_interleaving.
+
+(* clause names pseudo_headers / headers / data_frames of a PROPFAIL *)
+Theorem C19_message_oracle_parts : forall m l,
+  (msg_okb m l = true <->
+     msg_pseudo_okb m l = true /\ msg_headers_okb m l = true /\ msg_data_okb m l = true)
+  /\ (msg_pseudo_okb m l = true <->
+        firstn (List.length (m_pseudo m)) l = hframes (m_id m) (m_mt m) (m_pseudo m))
+  /\ (msg_headers_okb m l = true <->
+        Permutation (firstn (List.length (m_hdrs m)) (skipn (List.length (m_pseudo m)) l))
+                    (hframes (m_id m) (m_mt m) (m_hdrs m)))
+  /\ (msg_data_okb m l = true <->
+        skipn (List.length (m_hdrs m)) (skipn (List.length (m_pseudo m)) l)
+        = body_log (m_id m) (m_mt m) (m_reads m))
+  /\ (msg_okb m l = true <-> msg_spec m l).
+Proof.
+  intros m l. split; [|split; [|split; [|split]]].
+  - exact (msg_okb_parts m l).
+  - exact (msg_pseudo_okb_iff m l).
+  - exact (msg_headers_okb_iff m l).
+  - exact (msg_data_okb_iff m l).
+  - exact (msg_okb_iff m l).
+Qed.
+Print Assumptions C19_message_oracle_parts.
+
+(* clause message_id_truncated: the guard of C19_concurrent_stream_partial *)
+Theorem C19_distinct_keys_oracle : forall ms,
+  keys_distinctb (map mkey ms) = true <-> NoDup (map mkey ms).
+Proof. intros ms. exact (keys_distinctb_iff (map mkey ms)). Qed.
+Print Assumptions C19_distinct_keys_oracle.
+
+(* newFrame: id[:8] — the wire id is the first 8 bytes; shorter IDs panic *)
+Theorem C19_wire_id_is_first_8_bytes : forall id,
+  (forall w, wire_id id = Some w <-> 8 <= len id /\ w = firstn 8 id)
+  /\ (wire_id id = None <-> len id < 8).
+Proof. intros id. split; [exact (wire_id_some id)|exact (wire_id_none id)]. Qed.
+Print Assumptions C19_wire_id_is_first_8_bytes.
+
+(* :timestamp / :status / Content-Length: the decimal printer of the model is
+   inverted by the decimal reader the timestamp check uses *)
+Theorem C19_itoa_roundtrip : forall n, n < 10 ^ 40 -> undec (itoa n) = Some n.
+Proof. exact undec_itoa. Qed.
+Print Assumptions C19_itoa_roundtrip.
+
+Theorem C19_timestamp_oracle : forall t0 t1 v,
+  ts_okb t0 t1 v = true <-> exists t, undec v = Some t /\ t0 <= t <= t1.
+Proof. exact ts_okb_iff. Qed.
+Print Assumptions C19_timestamp_oracle.
+
+(* Go's s[a:b] as modelled *)
+Theorem C19_go_slice_semantics : forall s a b m,
+  slice s a b = Some m <->
+  a <= b /\ b <= len s /\ m = firstn (N.to_nat (b - a)) (skipn (N.to_nat a) s).
+Proof. exact slice_spec. Qed.
+Print Assumptions C19_go_slice_semantics.
+
+(* However the buffer is sized, a Panic of the model is one of the two
+   run-time slice expressions failing on a header frame — never one of the
+   structurally unreachable branches Model.v had to fill in. *)
+Theorem C19_panic_only_from_slice : forall add bs, dec_frame_gen add bs = Panic ->
+  exists ft mt id a b c d e f g h nv r3,
+    N_of_ascii ft = ft_header /\
+    bs = ft :: mt :: id ++ [a; b; c; d; e; f; g; h] ++ nv ++ r3 /\
+    (slice nv 0 (de32 [a; b; c; d]) = None \/ slice nv (de32 [a; b; c; d]) (len nv) = None).
+Proof. exact panic_is_slice_failure. Qed.
+Print Assumptions C19_panic_only_from_slice.
+
+(* Whatever the reader returns can be written again and read back. *)
+Theorem C19_decoded_frames_wellformed : forall bs f rest,
+  dec_frame bs = Res f rest -> wf_frame f.
+Proof. exact dec_frame_wf. Qed.
+Print Assumptions C19_decoded_frames_wellformed.
+
+Theorem C19_decode_encode_decode : forall bs fs e,
+  dec_stream bs = (fs, e) -> dec_stream (enc_stream fs) = (fs, FinErr EEof).
+Proof. exact dec_enc_dec. Qed.
+Print Assumptions C19_decode_encode_decode.
+
+Theorem C19_trunc32_fallback_unreachable : forall s, take (u32 (len s)) s <> None.
+Proof. exact trunc32_take_total. Qed.
+Print Assumptions C19_trunc32_fallback_unreachable.
+
 (* ---- non-vacuity -------------------------------------------------- *)
 
 Local Open Scope string_scope.
@@ -233,3 +329,31 @@ Example C19_example_reader_on_hostile_lengths :
   /\ dec_stream_orig panic_witness = ([], FinPanic)
   /\ ~ no_wrap panic_witness.
 Proof. vm_compute. repeat split; try reflexivity. intros H. discriminate H. Qed.
+
+(* hypotheses of the codec theorems are met by ordinary frames *)
+Example C19_example_roundtrip_hypotheses :
+  wf_frame (FHeader ex_id1 mt_request (s ":method") (s "POST"))
+  /\ wf_frame (FData ex_id1 mt_response 4294967295 true (s "tail"))
+  /\ dec_frame (List.app (enc_frame (FData ex_id1 mt_response 4294967295 true (s "tail"))) (s "rest"))
+     = Res (FData ex_id1 mt_response 4294967295 true (s "tail")) (s "rest").
+Proof. vm_compute. repeat split; reflexivity. Qed.
+
+Example C19_example_data_contiguous :
+  let unders := [(s "ab", RNil); ([], RNil); (s "c", ROther); (s "d", REof); ([], REof)] in
+  N.of_nat (List.length unders) <= two32
+  /\ map fidx (body_log ex_id1 mt_request unders) = [0; 1; 2; 3; 4]
+  /\ map fterm (body_log ex_id1 mt_request unders) = [false; false; false; true; true]
+  /\ List.concat (map fdata (body_log ex_id1 mt_request unders)) = s "abcd".
+Proof. vm_compute. repeat split; try reflexivity. intros H; discriminate H. Qed.
+
+Example C19_example_oracle_parts :
+  keys_distinctb (map mkey [ex_m1; ex_m2; ex_m3]) = true
+  /\ keys_distinctb (map mkey [tm1; tm2]) = false
+  /\ msg_pseudo_okb ex_m1 ex_l1 = true /\ msg_headers_okb ex_m1 ex_l1 = true
+  /\ msg_data_okb ex_m1 ex_l1 = true /\ msg_data_okb ex_m1 (removelast ex_l1) = false
+  /\ wire_id (s "0123456789abcdef") = Some (s "01234567") /\ wire_id (s "1234567") = None
+  /\ itoa 1700000000123 = s "1700000000123" /\ itoa 0 = s "0"
+  /\ ts_okb 1700000000000 1700000000200 (s "1700000000123") = true
+  /\ ts_okb 1700000000000 1700000000200 (s "1700000000201") = false
+  /\ ts_okb 0 10 (s "") = false /\ ts_okb 0 10 (s "+5") = false.
+Proof. vm_compute. repeat split; reflexivity. Qed.
